@@ -8,6 +8,8 @@
 (*   ev.exc   class names along the MRO of the raised exception (<<>> none)  *)
 (*   ev.rid   id of the returned object (Len+1 = never seen before)          *)
 (*   ev.heap  observed [k, c, v] of EVERY live object after the call         *)
+(*   ev.dmiss pairs (i, j), i == j observed, where j is not found in a dict   *)
+(*            / set keyed by i                                                *)
 (*   ev.eq / ev.heq / ev.ct / ev.gi   observed ==, hash-equality, `in`,      *)
 (*            set[cls] outcomes over all live objects;  ev.bad = pairs where *)
 (*            == is not symmetric / reflexive / the negation of !=           *)
@@ -41,7 +43,7 @@ WellTyped(h, op) ==
   IN /\ op.op \in OpNames
      /\ \A i \in DOMAIN op.kw : Len(op.kw[i]) = 2 /\ op.kw[i][1] \in 1..3 /\ op.kw[i][2] \in {0, 1}
      /\ \A i \in DOMAIN op.nss : ns(op.nss[i])
-     /\ CASE op.op = "NsNew" -> op.cls \in T.has
+     /\ CASE op.op = "NsNew" -> op.cls \in T.has /\ op.b \in {0, 1}
           [] op.op \in {"NsUpdate", "Pos"} -> ns(op.a)
           [] op.op = "New" -> cl(op.cls) /\ (op.a = 0 \/ ra(op.a))
           [] op.op = "UpdateNs" -> ra(op.a) /\ Len(op.nss) >= 1
@@ -67,18 +69,20 @@ Clause(h, ev) ==
     THEN "exception-class:" \o name \o ": not (a subclass of) the documented exception"
   ELSE IF e.rej = {} /\ ev.rid \notin 1..(Len(h) + 1)
     THEN "trace-malformed: result id"
-  ELSE IF e.rej = {} /\ ~fresh /\ h[ev.rid] # e.rec
+  ELSE IF e.rej = {} /\ ~fresh /\ Proj(h[ev.rid]) # Proj(e.rec)
     THEN "alias:" \o name \o ": returned an existing object that does not have the required value"
   ELSE IF Len(ev.heap) # Len(h2)
     THEN "trace-malformed: heap length"
-  ELSE IF e.rej = {} /\ fresh /\ ev.heap[ev.rid] # e.rec
+  ELSE IF e.rej = {} /\ fresh /\ ev.heap[ev.rid] # Proj(e.rec)
     THEN "value:" \o name \o ": result differs from (last namespace given, else initial set's, else default)"
-  ELSE IF \E i \in 1..Len(h) : ev.heap[i] # h[i]
+  ELSE IF \E i \in 1..Len(h) : ev.heap[i] # Proj(h[i])
     THEN "mutated:" \o name \o ": an existing object changed"
   ELSE IF eqs # EqPairs(h2)
     THEN "eq: == disagrees with (same class and equal values)"
   ELSE IF ~(EqPairs(h2) \subseteq heqs)
     THEN "hash-law: equal objects hash differently"
+  ELSE IF ev.dmiss # <<>>
+    THEN "dict-lookup: an equal object is not found as dict key / set member"
   ELSE IF ClassOnlyPairs(h2) \cap heqs # {}
     THEN "hash-ignores-class: objects differing only in the render class hash equal"
   ELSE IF \E i \in 1..Len(h2) : ev.gi[i] # GetItems(T, h2[i])
